@@ -37,7 +37,10 @@ def repr_grammar():
 def corner_floats():
     out = [0.0, -0.0, 1.0, -1.0, 0.1, 0.5, 1.5, 100.0, 1e15, 1e16, 1e21, 1e22, 123456789012345678.0, 2.0 ** 53, 2.0 ** 53 + 2, 2.0 ** 53 - 1,
            5e-324, 2.2250738585072014e-308, 1.7976931348623157e308, 1e-7, 1e-5, 0.0001, 0.00001, 1e+20, 2.5e-10, 1e+100, 3e+300, 120.0,
-           1e-320, 999999999999999.0, 9999999999999998.0, 0.30000000000000004, 1 / 3]
+           1e-320, 999999999999999.0, 9999999999999998.0, 0.30000000000000004, 1 / 3,
+           # a few ulps away from an integer
+           3.0000000000000004, 0.9999999999999999, 123456.00000000001, 2.0000000000000004, 99999999999999.98, 1.0000000000000002,
+           4503599627370497.5, 1e15 - 0.125, 7.000000000000001, 1e-15 + 1, 0.1 * 3 * 10, 1e22 + 2 ** 22, 4.35 * 100, 1.1 * 1.1]
     for e in range(-320, 309, 7):
         out.append(float(f'1e{e}'))
     return out + [-x for x in out[2:40]]
